@@ -158,6 +158,32 @@ def run(ctx, rep):
         else:
             rep.violation("C05.1", cons, "a qubit reference can be returned without visiting its source register: `let n 2; register q[n]; foo q[0]` keeps pointing at the register sized by the constant n (overrides of n are ignored for that gate, and later passes meet a Constant where an int is expected)", h.loc(), witness="let n 2\nregister q[n]\nfoo q[0]")
 
+    # the source of an alias register is re-resolved on every returning path of the alias case
+    for v, t in trs:
+        h = ix.classes[v].methods.get("visit_Register")
+        if h is None:
+            continue
+        cons = construct_of(h, "alias_from:visited-on-every-alias-path")
+        fl = t.flows.get(h.qualname) or FuncFlow(ix, T, h)
+        cfg = CFG(h.body)
+        vnodes = []
+        for cs in T.callsites(h):
+            if cs.kind == "visit" and isinstance(cs.node, ast.Call) and cs.node.args and fl.is_relevant(cs.node):
+                ids, _ = fl.depends(cs.node.args[0])
+                if any(id(m) in ids and isinstance(m, ast.Attribute) and m.attr == "alias_from" for m in walk_no_nested(h.node)):
+                    n_ = cfg.containing_stmt_node(cs.node, h.body)
+                    if n_ is not None:
+                        vnodes.append(n_)
+        fund_edges = []
+        for st in iter_stmts(h.body):
+            if isinstance(st, ast.If) and isinstance(st.test, ast.Attribute) and st.test.attr == "fundamental":
+                fund_edges += cfg.branch_edges(cfg.node(st), True)
+        reach = cfg.reachable_from(cfg.entry, removed_edges=fund_edges, removed_nodes=vnodes)
+        if vnodes and cfg.exit not in reach:
+            rep.ok("C05.1", cons, "every returning path of the alias case visits reg.alias_from", h.loc())
+        else:
+            rep.violation("C05.1", cons, "an alias register can be returned without visiting its source: `let k 0; map tail r[k:4]; map work tail` keeps `work` on the un-substituted (un-overridden) `tail`", h.loc(), witness="let k 0\nregister r[4]\nmap tail r[k:4]\nmap work tail\nfoo work[0]")
+
     # ------------------------------------------------------------ C05.2
     rep.rule("C05.2", "the override lookup (keyed by the constant's name) dominates the declared-value return", floor=1)
     over_attr = None
